@@ -1526,6 +1526,7 @@ class RulesMixin:
         if tail is not None:
             i = ctx.fresh(f"_i@{label}", z3.IntSort())
             ctx.assume(z3.And(i >= 0, i <= n_expr))
+            ctx.add_key(i)  # quantified facts are instantiated at the position the loop is at
         prevq = getattr(self, "qmode", "prove")
         self.qmode = "assume"
         try:
@@ -1720,6 +1721,12 @@ class RulesMixin:
             return PList(out_l)
         # symbolic source: evaluate the element expression on one arbitrary element (so that its
         # exceptions are explored) and return an uninterpreted sequence of the right sort
+        if kind == "set" and not g.ifs and not isinstance(it, SymAny) and not fr.spec:
+            # {f(x) for x in seq}: kept lazily; the only supported use is a membership test with a
+            # literal, which is any(f(x) == literal for x in seq) -- the same term any() gives
+            sig0 = self.closed_signature(e.elt, g, fr)
+            if sig0 is not None:
+                return LazySetComp(e, g, fr, ops.to_seq(self.ctx, it))
         if kind != "list":
             raise Unsupported("dict/set comprehension over symbolic iterable")
         ctx = self.ctx
@@ -1890,6 +1897,28 @@ class RulesMixin:
         if isinstance(cls, str):
             return models.MODEL_CLASSES.get(cls)
         return models.MODEL_BY_REAL.get(cls)
+
+
+class LazySetComp:
+    """{elt(x) for x in seq} over a symbolic sequence (see comprehension())"""
+
+    def __init__(self, node, g, fr, seq):
+        self.node, self.g, self.fr, self.seq = node, g, fr, seq
+
+    def contains(self, interp, item):
+        if is_sym(item) or not isinstance(item, (str, bytes, int)):
+            raise Unsupported("membership of a symbolic value in a set comprehension")
+        cmp_ = ast.Compare(left=self.node.elt, ops=[ast.Eq()], comparators=[ast.Constant(item)])
+        ast.fix_missing_locations(cmp_)
+        sig = interp.closed_signature(cmp_, self.g, self.fr)
+        if sig is None:
+            raise Unsupported("set comprehension element is not closed")
+        ctx = interp.ctx
+        anyf = z3.Function(f"any_over[{sig}]", self.seq.e.sort(), z3.BoolSort())
+        r = anyf(self.seq.e)
+        ctx.assume(z3.Implies(z3.Length(self.seq.e) == 0, z3.Not(r)))
+        ctx.assumptions_used.add("membership in a set comprehension over a symbolic collection: any() of the element test, uninterpreted except for the empty case")
+        return SymBool(r)
 
 
 class LazyUnknown:
